@@ -646,3 +646,25 @@ spec("C06", plan=plan_c06,
           "prefix alone: byte = byte0 + k, line = line0 + #(eol characters in prefix), column = 1 + bytes since the last one (column0 + k "
           "if none).  Non-trivial: an observation whose consumed prefix contains an end-of-line character; distinct = (grammar, input).",
      assumptions=COMMON_ASSUME + ["UTF-16/32 and multi-byte binary rules are excluded as the property states"])
+
+# ---------------------------------------------------------------------------- C10
+
+
+def plan_c10(tier, seed, workdir, case):
+    t = Target("c10_classes", "targets/c10_classes.cpp", mode="opt")
+    return [Run(t, nshards=1 if case else 16, timeout=3000)]
+
+
+spec("C10", plan=plan_c10,
+     rule="total enumeration of candidate units against decoders written from the Unicode standard (table 3-7, D90, D91) and shift "
+          "arithmetic: every named ASCII/abnf class and a parameter family of one/not_one/range/not_range/ranges/uint8 (mask) rules x "
+          "{empty input, every byte}; istring<C> for all 256 C x all 256 bytes + all case patterns of a mixed string; UTF-8: empty, all "
+          "1-, 2-, 3-byte sequences, 4-byte sequences (all lead x second bytes x 9 boundary values for bytes 3/4; thorough: ALL for leads "
+          "f0..f7) x 11 rules; UTF-16 be/le: every unit, every unit + 1 byte, every first unit x 32 boundary second units (thorough: all "
+          "second units for first units d700..e0ff); UTF-32 be/le: every unit to 0x120000, power-of-two neighbourhoods, stride 40009 "
+          "(thorough: all 2^32), truncations; uint16: all values x 15 (mask) rules x both endiannesses; uint32: boundary-structured + "
+          "stride 65521 (thorough: all 2^32) x 6 rules; uint64: bit-structured boundary values + seeded random.  Candidates are followed "
+          "in memory by bytes that would complete a truncated unit.  consumed == N iff accepted.  Non-trivial: accepted candidates and "
+          "candidates whose first unit is a multi-unit lead / surrogate; distinct by construction (enumeration).",
+     assumptions=COMMON_ASSUME + ["masks and set members are template parameters: a finite compile-time family is checked (listed in targets/c10_classes.cpp)",
+                                  "char parameters of ascii::range are compared as the platform's (signed) char"])
